@@ -57,18 +57,19 @@ Theorem C20_parse_never_unreachable : forall t : text,
 Proof. intros t. split; [apply parse_value_never_unreachable | apply parse_target_never_unreachable]. Qed.
 Print Assumptions C20_parse_never_unreachable.
 
-(* Index accumulation overflows (a panic in builds with overflow checks; D13 / C04): the text [9223372036854775808]. *)
-Theorem C20_overflow_panics :
-  exists t : text, t = hx "5b393232333337323033363835343737353830385d" /\ parse_value_path t = PPanic.
-Proof. eexists. split; [reflexivity|]. vm_compute. reflexivity. Qed.
-Print Assumptions C20_overflow_panics.
+(* An index that does not fit isize is invalid syntax (since /repo 8dcbd4e; before, the accumulation overflowed:
+   finding C20-index-overflow-panic, fixed): the decimal text of ANY integer outside the isize range, written as the
+   first index of a value path and followed by anything, is rejected with InvalidPathSyntax. *)
+Theorem C20_overflow_invalid : forall (i : Z) (rest : text),
+  in_isize i = false -> parse_value_path (91%N :: render_int i ++ rest) = PErr.
+Proof. exact value_index_out_of_range_invalid. Qed.
+Print Assumptions C20_overflow_invalid.
 
-(* ... and that is the only way to panic: a text in which every run of digits has at most 18 digits is
-   parsed without panic (Ok or InvalidPathSyntax). *)
-Theorem C20_no_panic_in_range : forall t : text,
-  digit_runs_le 18 0 t = true -> parse_value_path t <> PPanic /\ parse_target_path t <> PPanic.
-Proof. exact no_panic_short_digit_runs. Qed.
-Print Assumptions C20_no_panic_in_range.
+(* The path-string parsers never panic, on any text. *)
+Theorem C20_never_panics : forall t : text,
+  parse_value_path t <> PPanic /\ parse_target_path t <> PPanic.
+Proof. exact parse_never_panics. Qed.
+Print Assumptions C20_never_panics.
 
 (* Both readers agree on every rendered path that VRL source can spell: the text the renderer writes for a
    path whose unquoted fields are VRL identifiers (not a lone `_`, not all digits/underscores) and whose
@@ -126,6 +127,9 @@ Example C20_roundtrip_nonvacuous :
   p <> [] /\ indices_in_isize p = true /\ is_root_exception (Metadata, p) = false
   /\ spellable p = true
   /\ render_target (Metadata, p) = hx "25612e22622063222e22785c22795c5c225b2d315d2e2222"
-  /\ digit_runs_le 18 0 (hx "5b3132333435363738393031323334353637385d") = true
-  /\ parse_value_path (hx "5b3132333435363738393031323334353637385d") = POk [SIndex 123456789012345678%Z].
+  /\ parse_value_path (hx "5b3132333435363738393031323334353637385d") = POk [SIndex 123456789012345678%Z]
+  /\ in_isize 9223372036854775808 = false /\ in_isize (-9223372036854775809) = false
+  /\ (91%N :: render_int 9223372036854775808 ++ hx "5d") = hx "5b393232333337323033363835343737353830385d"
+  /\ parse_value_path (hx "5b393232333337323033363835343737353830385d") = PErr
+  /\ parse_value_path (hx "5b2d393232333337323033363835343737353830385d") = POk [SIndex (-9223372036854775808)%Z].
 Proof. vm_compute. repeat split; congruence. Qed.
